@@ -283,6 +283,44 @@ Proof.
     + exact I.
 Qed.
 
+(* Packet::decompress_if_needed never panics either (scratch >= MAX_PACKETSIZE) *)
+Theorem decompress_if_needed6_total bs cap : bytes_ok bs = true -> (1400 <= cap)%nat ->
+  ok_or_err (decompress_if_needed6 decomp bs cap).
+Proof.
+  intros Hb Hcap. unfold decompress_if_needed6.
+  replace (Z.of_nat cap <? MAX_PACKETSIZE) with false by (symmetry; apply Z.ltb_ge; unfold MAX_PACKETSIZE; lia).
+  destruct (needs_decompression6 bs) eqn:En; [|exact I]. cbn [negb].
+  unfold needs_decompression6 in En.
+  destruct (Z.of_nat (length bs) >? MAX_PACKETSIZE) eqn:Elen; [discriminate|].
+  destruct (header_of6 bs) as [[[h ws] payload]|] eqn:Eh; [|discriminate].
+  apply andb_true_iff in En as [Fc Fz]. apply negb_true_iff in Fc.
+  destruct (decompress6_spec bs h ws payload cap Hb Eh Fc Fz Elen Hcap) as (hb & _ & E & _).
+  rewrite E. destruct (decomp payload (cap - 3)%nat); exact I.
+Qed.
+
+(* read_panic_on_decompression: its documented panic on a compressed packet, and nothing else *)
+Theorem read_nodecomp6_spec bs hint : bytes_ok bs = true ->
+  match snd (read_nodecomp6 bs hint) with
+  | Panic s => s = site6_read_no_buffer /\ needs_decompression6 bs = true
+  | OutOfFuel => False
+  | _ => True
+  end.
+Proof.
+  intros Hb. unfold read_nodecomp6, read_impl6.
+  destruct (Z.of_nat (length bs) >? MAX_PACKETSIZE) eqn:Elen; [exact I|].
+  destruct (header_of6 bs) as [[[h ws] payload]|] eqn:Eh; [|exact I].
+  destruct (header_of6_ok bs h ws payload Hb Eh) as (Hr & Hl & hp0 & _ & _ & Ebs).
+  destruct (land_ne0 (ph6_flags h) PACKETFLAG_CONNLESS) eqn:Fc.
+  - unfold read_connless6. destruct (Z.of_nat (length payload) <? PADDING_SIZE_CONNLESS); exact I.
+  - unfold payload_slice6. destruct (land_ne0 (ph6_flags h) PACKETFLAG_COMPRESSION) eqn:Fz.
+    + cbn [snd]. split; [reflexivity|]. unfold needs_decompression6. rewrite Elen, Eh, Fc, Fz. reflexivity.
+    + assert (Hs : slice_ok (length bs) None {| s_src := Input; s_off := Z.to_nat HEADER_SIZE; s_data := payload |}).
+      { unfold slice_ok, in_buf. cbn [s_src s_off s_data]. change (Z.to_nat HEADER_SIZE) with 3%nat. split; [lia|left; reflexivity]. }
+      pose proof (read_payload6_spec ws h hint _ (length bs) None Hr Hs) as Hg.
+      unfold good_result6 in Hg.
+      destruct (snd (read_payload6 ws h hint {| s_src := Input; s_off := Z.to_nat HEADER_SIZE; s_data := payload |})) as [[pk vs]|e|s|]; auto; contradiction.
+Qed.
+
 End Total.
 
 Section Rewrite.
